@@ -10,6 +10,10 @@ Nothing is predicted about *which* texts are accepted (that is the grammar, C01/
 manner of failing, so the oracle is the property text itself.  Relations between runs (loader with / without the
 rejected call) are what the property states.
 
+Besides edits of valid texts and token sequences, the item type-by-role enumerates texts whose statements cooperate: the type
+word of one attribute x the role that other statements give the attribute (referential, referred-to, identifying, ...) x the
+INSERT that supplies (or leaves out) its value x the order of the blocks.  Same clauses, same oracle.
+
 Clauses (the exception class is part of the clause name so that different escapes are different findings)
   input-only-parsing-exception:<Exc>          input raised something else than ParsingException
   build-only-documented-exceptions:<Exc>      build_metamodel raised something else than ParsingException / MetaException
@@ -92,13 +96,19 @@ def new_loader(base):
 FOLLOWUP = "CREATE TABLE Zfollow (N INTEGER, S STRING);\nINSERT INTO Zfollow VALUES (-5, 'it''s');\n"
 
 
-def evaluate(text, base=()):
-    """All clauses for one text on a fresh loader preloaded with the (valid) base texts.  [(clause, observed, required)]"""
+def evaluate(text, base=(), outcome=None):
+    """All clauses for one text on a fresh loader preloaded with the (valid) base texts.  [(clause, observed, required)]
+    `outcome`, when given, is a list that receives what input(text) did ('accepted', 'rejected', 'error', 'timeout')."""
+    return _evaluate(text, base, [] if outcome is None else outcome)
+
+
+def _evaluate(text, base, outcome):
     out = []
     loader = new_loader(base)
     before = stmts_snapshot(loader)
     ref = build(loader)
     o = feed(loader, text)
+    outcome.append(o[0])
     if o[0] == 'timeout':
         return [('bounded-time', 'input did not return within %.0f s' % TIME_LIMIT, 'accept or reject in bounded time')]
     if o[0] == 'error':
@@ -520,8 +530,115 @@ def histories(ctx):
     ctx.exhausted = True
 
 
+# --------------------------------------------------------------------------------------------------- type word x role x supply
+
+GUID2 = '"00000000-0000-0000-0000-000000000002"'
+SLOT = '<slot>'
+TYPE_WORDS = ['UNIQUE_ID', 'INTEGER', 'REAL', 'STRING', 'BOOLEAN',              # the core types as documented
+              'unique_id', 'integer', 'real', 'string', 'boolean', 'Unique_Id',   # in another letter case
+              'SOME_TYPE', 'INT', 'DATE', 'INST_REF', 'X', 'TABLE', 'M']          # no core type: plain words, a class name, keywords
+SLOT_VALUES = [GUID1, '1', '-1', '1.5', "'s'", 'TRUE']
+SLOT_VALUES_THOROUGH = SLOT_VALUES + ['"not-a-guid"', "''", '0', 'false', '99999999999999999999999']
+PROPER_VALUE = {'UNIQUE_ID': GUID1, 'STRING': "'n'", 'INTEGER': '1'}
+# role of the attribute that carries the type word: (classes in row order [(class, [(attribute, type)])], constraints)
+ROLES = [
+    ('plain', [('Y', [('Id', 'UNIQUE_ID'), ('Name', 'STRING')]), ('X', [('Id', 'UNIQUE_ID'), ('Y_Id', 'UNIQUE_ID'), ('S', SLOT)])],
+     ["CREATE ROP REF_ID R1 FROM MC X (Y_Id) TO 1 Y (Id);"]),
+    ('referential', [('Y', [('Id', 'UNIQUE_ID'), ('Name', 'STRING')]), ('X', [('Id', 'UNIQUE_ID'), ('S', SLOT)])],
+     ["CREATE ROP REF_ID R1 FROM MC X (S) TO 1 Y (Id);"]),
+    ('referred-to', [('Y', [('S', SLOT), ('Name', 'STRING')]), ('X', [('Id', 'UNIQUE_ID'), ('Y_S', 'UNIQUE_ID')])],
+     ["CREATE ROP REF_ID R1 FROM MC X (Y_S) TO 1 Y (S);"]),
+    ('identifying', [('X', [('Id', 'UNIQUE_ID'), ('S', SLOT)])],
+     ["CREATE UNIQUE INDEX I1 ON X (S);"]),
+    ('referential-and-identifying', [('Y', [('Id', 'UNIQUE_ID'), ('Name', 'STRING')]), ('X', [('Id', 'UNIQUE_ID'), ('S', SLOT)])],
+     ["CREATE ROP REF_ID R1 FROM 1C X (S) TO 1 Y (Id);", "CREATE UNIQUE INDEX I1 ON X (S);"]),
+    ('referred-to-and-identifying', [('Y', [('S', SLOT), ('Name', 'STRING')]), ('X', [('Id', 'UNIQUE_ID'), ('Y_S', 'UNIQUE_ID')])],
+     ["CREATE UNIQUE INDEX I1 ON Y (S);", "CREATE ROP REF_ID R1 FROM MC X (Y_S) TO 1 Y (S);"]),
+    ('reflexive-referential', [('X', [('Id', 'UNIQUE_ID'), ('S', SLOT)])],
+     ["CREATE ROP REF_ID R1 FROM 1C X (S) PHRASE 'after' TO 1C X (Id) PHRASE 'before';"]),
+    ('both-ends', [('Y', [('S', SLOT), ('Name', 'STRING')]), ('X', [('Id', 'UNIQUE_ID'), ('S', SLOT)])],
+     ["CREATE ROP REF_ID R1 FROM MC X (S) TO 1 Y (S);"]),
+    ('part-of-composite-key', [('Y', [('Id', 'UNIQUE_ID'), ('N', 'INTEGER')]), ('X', [('Id', 'UNIQUE_ID'), ('S', SLOT), ('T', 'INTEGER')])],
+     ["CREATE ROP REF_ID R1 FROM MC X (S, T) TO 1 Y (Id, N);"]),
+]
+SUPPLIES = ('positional', 'named')
+BLOCK_ORDERS = ['TCI', 'ICT']                                   # T = CREATE TABLEs, C = constraints, I = INSERTs
+BLOCK_ORDERS_THOROUGH = ['TCI', 'ICT', 'TIC', 'ITC', 'CTI', 'CIT']
+
+
+def role_text(role, word, supply, value, order, delivery='one-text'):
+    """The texts of one case: the schema of `role` with `word` as the type of the slot attribute, one row per class.
+    Returns (base texts fed first, text): everything in one text, or one input per block."""
+    classes, constraints = dict((r[0], r[1:]) for r in ROLES)[role]
+    blocks = dict(T=[], C=list(constraints), I=[])
+    for cname, attrs in classes:
+        blocks['T'].append('CREATE TABLE %s (%s);' % (cname, ', '.join('%s %s' % (a, word if t == SLOT else t) for a, t in attrs)))
+        if supply == 'none':
+            continue
+        cells = [(a, value if t == SLOT else (GUID2 if (cname, a) == ('X', 'Id') else PROPER_VALUE[t])) for a, t in attrs
+                 if not (supply == 'named-without' and t == SLOT)]
+        if supply == 'positional':
+            blocks['I'].append('INSERT INTO %s VALUES (%s);' % (cname, ', '.join(v for _, v in cells)))
+        else:
+            blocks['I'].append('INSERT INTO %s (%s) VALUES (%s);' % (cname, ', '.join(a for a, _ in cells), ', '.join(v for _, v in cells)))
+    if delivery == 'one-text':
+        return [], '\n'.join(s for b in order for s in blocks[b]) + '\n'
+    texts = ['\n'.join(blocks[b]) + '\n' for b in order]
+    return texts[:-1], texts[-1]
+
+
+def role_cases(quick):
+    values = SLOT_VALUES if quick else SLOT_VALUES_THOROUGH
+    for role, _, _ in ROLES:
+        for word in TYPE_WORDS:
+            for order in (BLOCK_ORDERS if quick else BLOCK_ORDERS_THOROUGH):
+                for delivery in (('one-text',) if quick else ('one-text', 'input-per-block')):
+                    yield (role, word, 'none', None, order, delivery)
+                    yield (role, word, 'named-without', None, order, delivery)
+                    for supply in SUPPLIES:
+                        for value in values:
+                            yield (role, word, supply, value, order, delivery)
+
+
+@item('type-by-role', stands_in_for=['xtuml.load.ModelLoader.build_metamodel', 'xtuml.load.deserialize_value',
+                                     'xtuml.load.ModelLoader._populate_instance_with_named_arguments',
+                                     'xtuml.load.ModelLoader._populate_instance_with_positional_arguments',
+                                     'xtuml.load.ModelLoader.populate_associations',
+                                     'xtuml.load.ModelLoader.populate_unique_identifiers',
+                                     'xtuml.load.ModelLoader.populate_connections'], shards=2, weight=1,
+      bound='statements that cooperate across one text: a two-class schema in which one attribute carries any of %d type words '
+            '(5 core types, 6 re-spellings in another letter case, 7 words that name no core type: plain words, a class name, '
+            'keywords) x 9 roles of that attribute (plain, referential, referred-to, identifying, referential+identifying, '
+            'referred-to+identifying, reflexive referential, both ends of an association, part of a composite key) x supply of '
+            'a value for it (no rows; named rows leaving it out; positional / named rows giving it one of 6 (thorough 11) '
+            'literals of every lexical class) x order of the CREATE TABLE / constraint / INSERT blocks (quick: schema first and '
+            'rows first; thorough: all 6 orders, and each also as one input per block); fresh loader per case, non-trivial when '
+            'input accepts the text'
+            % len(TYPE_WORDS))
+def type_by_role(ctx):
+    for i, case in enumerate(role_cases(ctx.quick)):
+        if i % ctx.nshards != ctx.shard:
+            continue
+        if i % 64 < ctx.nshards and ctx.expired():
+            ctx.exhausted = False
+            return
+        role, word, supply, value, order, delivery = case
+        base, text = role_text(*case)
+        outcome = []
+        try:
+            res = evaluate(text, base, outcome)
+        except Exception:       # a block fed first was not accepted: judge the blocks as one text instead
+            base, text = [], ''.join(base) + text
+            res = evaluate(text, base, outcome)
+        ctx.case(key=case, nontrivial=(outcome == ['accepted']))
+        for clause, observed, required in res:
+            ctx.check(False, clause=clause, input=dict(base=base, text=text, role=role, type=word, supply=supply, value=value,
+                                                       order=order, delivery=delivery), observed=observed, required=required)
+    ctx.exhausted = True
+
+
 def replay(item_name, input):
-    fmt = lambda res: [dict(clause=c, observed=o, required=r) for c, o, r in res]
+    fmt =lambda res: [dict(clause=c, observed=o, required=r) for c, o, r in res]
     if 'sequence' in input:
         return fmt(run_sequence(input['sequence']))
     if 'history' in input:
